@@ -1,5 +1,6 @@
 //! Checks that need the feature-guarded hooks of scnr (feature `verif`).
 mod c02c03;
+mod c13;
 mod e1;
 mod e3;
 mod hist;
@@ -13,6 +14,7 @@ fn main() {
         "C02" => c02c03::run("C02", tier),
         "C03" => c02c03::run("C03", tier),
         "C06" => hist::run("C06", tier),
+        "C13" => c13::run(tier),
         "C09" => hist::run("C09", tier),
         "C10" => hist::run("C10", tier),
         "C11" => hist::run("C11", tier),
